@@ -4,7 +4,9 @@ import (
 	"context"
 	"fmt"
 	"strings"
+	"runtime"
 	"sync"
+	"sync/atomic"
 	"testing"
 	"testing/synctest"
 	"time"
@@ -46,6 +48,12 @@ type c03Case struct {
 	After   int `json:"after"` // calls queued after the failure
 	// Pos > 0 restricts the run to one position (used by replays of a failing position)
 	Pos int `json:"pos,omitempty"`
+	// Log: the region client's logger ("" discards unevaluated; json / text: a slog handler at Debug level that
+	// marshals every attribute - the client itself is one - in the goroutine that logs)
+	Log string `json:"log,omitempty"`
+	// HoldClear (family read-timeout): the connection's reader is descheduled right where it clears the read deadline
+	// (nothing else in flight), for as long as it takes another sender to arm it - if the code permits that order
+	HoldClear bool `json:"hold_clear,omitempty"`
 }
 
 type c03Tracked struct {
@@ -110,6 +118,12 @@ func c03Once(c c03Case, pos int) (ret c03Outcome) {
 		return c03Outcome{sig: "client-stuck@behind-blocked-writer", msg: "the connection failed while a write was blocked (server not reading); " +
 			"a goroutine of the region client is parked on a lock that only the blocked writer can release, and the write is never interrupted:\n" + res.Frozen}
 	}
+	if c.Log != "" && res.Frozen != "" && strings.Contains(res.Frozen, "region.(*client).MarshalJSON") {
+		// the logger marshals the client (an attribute of its own debug messages) in the goroutine that logs; the
+		// locks MarshalJSON takes are only ever held for a few instructions by anybody else: parked there for
+		// 40 s of real time, the logging goroutine holds that lock itself
+		return c03Outcome{sig: "client-stuck@logging-under-lock", msg: "a goroutine of the region client logs (" + c.Log + " handler at Debug level) while holding a lock that marshalling the client for the log needs:\n" + res.Frozen}
+	}
 	if o, stuck := stuckVerdict(res); stuck {
 		return c03Outcome{sig: o.Sig, msg: o.Msg}
 	}
@@ -123,6 +137,7 @@ func c03Once(c c03Case, pos int) (ret c03Outcome) {
 }
 
 func c03InBubble(c c03Case, pos int) (ret c03Outcome) {
+	defer withLog(c.Log)()
 	readTimeout := time.Hour
 	if c.Family == "read-timeout" || c.Family == "write-stall" && c.Partial == 1 {
 		readTimeout = 50 * time.Millisecond
@@ -132,6 +147,19 @@ func c03InBubble(c c03Case, pos int) (ret c03Outcome) {
 	opts := memconn.Options{}
 	if stall {
 		opts.Cap = 1
+	}
+	if c.HoldClear && c.Family == "read-timeout" {
+		var armSeq atomic.Int64
+		opts.BeforeDeadline = func(t time.Time) {
+			if !t.IsZero() {
+				armSeq.Add(1)
+				return
+			}
+			start := armSeq.Load()
+			for i := 0; i < 2000 && armSeq.Load() == start; i++ {
+				runtime.Gosched()
+			}
+		}
 	}
 	if pos > 0 {
 		switch c.Family {
@@ -567,6 +595,8 @@ func c03Gen(t *rapid.T) c03Case {
 	c.Family = rapid.SampledFrom([]string{"op-error", "op-error", "ext-close", "srv-fatal", "srv-garbage", "srv-truncate", "srv-close", "read-timeout", "write-stall"}).Draw(t, "family")
 	c.Partial = rapid.SampledFrom([]int{0, 1, -1}).Draw(t, "partial")
 	c.After = rapid.IntRange(0, 3).Draw(t, "after")
+	c.Log = rapid.SampledFrom([]string{"", "", "json", "text"}).Draw(t, "log")
+	c.HoldClear = c.Family == "read-timeout" && rapid.Bool().Draw(t, "holdclear")
 	ns := rapid.IntRange(1, 4).Draw(t, "nsenders")
 	total := 0
 	for i := 0; i < ns && total < 12; i++ {
@@ -606,7 +636,7 @@ func TestC03_ConnectionFailure(t *testing.T) {
 			"blocks, and then Close() / the read timeout / a hang-up of the server ends the connection; then 0..3 more calls are queued. Oracle at "+
 			"quiescence: every call got exactly one result (own response if answered, else region.ServerError; cancelled "+
 			"calls 0 or 1), never two; later calls are refused at once with ServerError; no reader/writer/queueing "+
-			"goroutine is left; the bubble never deadlocks. evaluations = workloads; label positions counts runs. "+
+			"goroutine is left; the bubble never deadlocks. The client's logger is drawn too: discarding, or a slog JSON / text handler at Debug level that marshals every attribute (the client itself) in the logging goroutine. evaluations = workloads; label positions counts runs. "+
 			"Non-trivial = a fault fired while >= 1 call was queued or in flight; distinct by case hash")
 	defer func() { rec.Label("positions", c03Positions); rec.Flush() }()
 	Drive(t, rec, true, c03Gen, c03Run)
